@@ -438,6 +438,8 @@ func firstWords(s string) string {
 
 func main() {
 	c := lib.New("C06", "model_checking", 170*time.Second, 25*time.Minute)
+	// library goroutines that take part in the workload-thread phase: syncer, value-appending precommit goroutines and indexers
+	vsched.WorkDaemons = []string{"store.OpenWith", "(*ImmuStore).precommit", "(*ImmuStore).preCommitWith", "store.(*indexer)"}
 	c.Assume("code between two synchronisation operations is data-race free")
 	c.Assume("sequential specification: per-key version lists, dense tx ids, preconditions evaluated on the state immediately preceding the write; an MVCC read conflict of Delete is a legal no-op outcome")
 	k1, k2 := "k1", "k2"
